@@ -109,7 +109,10 @@ Definition all_bytes : list ascii :=
   flat_map (fun b3 => flat_map (fun b2 => flat_map (fun b1 => map (fun b0 => Ascii b0 b1 b2 b3 b4 b5 b6 b7)
   [false; true]) [false; true]) [false; true]) [false; true]) [false; true]) [false; true]) [false; true]) [false; true].
 Lemma all_bytes_complete a : In a all_bytes.
-Proof. destruct a as [[] [] [] [] [] [] [] []]; vm_compute; tauto. Qed.
+Proof.
+  assert (H : existsb (Ascii.eqb a) all_bytes = true) by (destruct a as [[] [] [] [] [] [] [] []]; vm_compute; reflexivity).
+  apply existsb_exists in H. destruct H as [x [Hx E]]. apply Ascii.eqb_eq in E. subst. assumption.
+Qed.
 Lemma forall_bytes (P : ascii -> bool) : forallb P all_bytes = true -> forall a, P a = true.
 Proof. intros H a. rewrite forallb_forall in H. apply H, all_bytes_complete. Qed.
 
